@@ -78,3 +78,11 @@ def transpile_and_run(ctx, sources, passes=0, inputs="", san=False):
     jobs = [(cpp, passes, inputs) for cpp, e in outs if cpp is not None]
     res = iter(cxx.run_many(ctx, jobs, san=san))
     return [(cpp, e, next(res) if cpp is not None else None) for cpp, e in outs]
+
+
+def transpile_and_run_passes(ctx, items, san=False):
+    """items: list of (source, passes) -> list of (cpp, exc, Result|None)"""
+    outs = [cxx.transpile(s) for s, _ in items]
+    jobs = [(cpp, items[i][1], "") for i, (cpp, e) in enumerate(outs) if cpp is not None]
+    res = iter(cxx.run_many(ctx, jobs, san=san))
+    return [(cpp, e, next(res) if cpp is not None else None) for cpp, e in outs]
